@@ -77,6 +77,8 @@ structure Facts where
   connFilterResetsEof : Bool
   /-- `DeleteHistoricVersions`: after deleting the empty current version the handle stops naming it (F71) -/
   emptyVersionForgotten : Bool
+  /-- `Vacuum`: a failed commit of the clone (in `RemoveTombstones` or `Commit`) sets the table's `commitFailed` (F94) -/
+  vacuumRemembersFailedCommit : Bool
   /-- sqlite `VirtualTable.Sync` of a read-only table ends the table's transaction (`Rollback`) instead of just returning (F57) -/
   roSyncEndsTransaction : Bool
   /-- `getHistoricRootsAndNodes` returns the chosen versions so that each comes after the chosen versions it supersedes (depth-first `supersededFirst`), and `DeleteHistoricVersions` deletes the version objects in that order (F93) -/
